@@ -1,4 +1,23 @@
 #define strcmp(a, b) verif_strcmp(a, b)
+#define strncmp(a, b, n) verif_strncmp(a, b, n)
+/* entry i of the language table matches the language part by code / by name; entry j of the country table matches */
+#define CODEM(i) (SID(LANG[i].code) == g_lang_id)
+#define NAMEM(i) (SID(LANG[i].value) == g_lang_id)
+#define CMATCH(j) (SID(CTRY[j].code) == g_ctry_id || SID(CTRY[j].value) == g_ctry_id)
+/* language_COUNTRY[.charset] with both parts shorter than the buffer */
+#define FMT_OK (g_has_us && g_us < 64 && PARTEND > g_us && PARTEND - g_us - 1 < 64)
 #define LANG tulz_LocaleInfo_languageInfo
 #define CTRY tulz_LocaleInfo_countryInfo
 #define STREQ2(p, a, b) ((p) != 0 && (p)[0] == (a) && (p)[1] == (b) && (p)[2] == 0)
+
+static char **StrList__emplace_back__char_ptr_const(struct StrList *l, char **v) {
+  __CPROVER_assert(l->len < LIST_CAP, "list model capacity");
+  __CPROVER_assert(OBJ(v) == g_langobj, "C19 every language name returned refers to an entry of the language table");
+  struct LEntry *ent = (struct LEntry *)((char *)v - offsetof(struct LEntry, value));    /* the entry whose name field is listed */
+  g_last_idx = __CPROVER_POINTER_OFFSET(ent) / sizeof(struct LEntry);
+  g_last_match = SID(ent->code) == g_buf_id || SID(ent->value) == g_buf_id;
+  __CPROVER_assert(g_last_match, "C19 every language name listed belongs to an entry whose code or name is the language part");
+  if (g_last_idx == g_w) { g_w_seen = 1; g_w_pos = l->len; }
+  l->items[l->len] = *v; g_names_from_table++;
+  return &l->items[l->len++];
+}
